@@ -25,9 +25,11 @@ def evaluate(d, checks=None, tier="quick"):
         sh(["rsync", "-a", "--exclude", ".git", "--exclude", "__pycache__", "/repo/", scratch + "/"], check=True)
         env0 = dict(os.environ, PYTHONPATH="/repo", PYTHONDONTWRITEBYTECODE="1")
         env1 = dict(os.environ, PYTHONPATH=scratch, PYTHONDONTWRITEBYTECODE="1")
-        demo = os.path.join(d, "demo.py")
-        r = sh(["/venv/bin/python", demo], env=env0, cwd=outdir, timeout=900)
-        out["demo_without"] = r.returncode
+        demo = os.path.abspath(os.path.join(d, "demo.py"))
+        has_demo = os.path.exists(demo)      # behaviour-preserving edits (expected verdict: held) come without one
+        if has_demo:
+            r = sh(["/venv/bin/python", demo], env=env0, cwd=outdir, timeout=900)
+            out["demo_without"] = r.returncode
         a = sh(["git", "apply", os.path.abspath(os.path.join(d, "patch.diff"))], cwd=scratch)
         out["applies"] = a.returncode == 0
         if not out["applies"]:
@@ -36,18 +38,22 @@ def evaluate(d, checks=None, tier="quick"):
         t = sh(["/venv/bin/python", "-m", "pytest", "-q", "-p", "no:cacheprovider", "--timeout=900"], cwd=scratch, env=env1)
         out["tests"] = t.stdout.strip().splitlines()[-1] if t.stdout.strip() else t.stderr[-200:]
         out["tests_pass"] = t.returncode == 0
-        r = sh(["/venv/bin/python", demo], env=env1, cwd=outdir, timeout=900)
-        out["demo_with"] = r.returncode
-        out["demo_output"] = (r.stdout + r.stderr).strip()[-400:]
-        out["confirmed"] = out["tests_pass"] and out["demo_with"] == 1 and out["demo_without"] == 0
+        if has_demo:
+            r = sh(["/venv/bin/python", demo], env=env1, cwd=outdir, timeout=900)
+            out["demo_with"] = r.returncode
+            out["demo_output"] = (r.stdout + r.stderr).strip()[-400:]
+            out["confirmed"] = out["tests_pass"] and out["demo_with"] == 1 and out["demo_without"] == 0
+        else:
+            out["confirmed"] = out["tests_pass"]
         out["checks"] = {}
         for p in (checks or [prop]):
             t0 = time.time()
-            c = sh(["python3-vt", "/verif/check.py", "--property", p] + (["--thorough"] if tier == "thorough" else []),
+            c = sh(["python3-vt", "/verif/check.py", "--property", p] + (["--tier", "thorough"] if tier == "thorough" else []),
                    env=dict(os.environ, PYVC_REPO=scratch, PYVC_OUT=outdir), cwd="/verif")
             lines = [l for l in c.stdout.splitlines() if l.startswith(("VIOLATION", "CHECKER", "UNDECIDED", "KNOWN"))]
             out["checks"][p] = {"exit": c.returncode, "seconds": round(time.time() - t0), "lines": [l[:300] for l in lines[:6]]}
         out["caught"] = any(v["exit"] == 1 for v in out["checks"].values())
+        out["all_held"] = all(v["exit"] == 0 for v in out["checks"].values())
         return out
     finally:
         shutil.rmtree(scratch, ignore_errors=True)
